@@ -224,34 +224,52 @@ pub fn builder_case(c: &BuilderCase, st: &mut Stats) -> Result<(), String> {
     let mut b = Board::builder();
     let mut rejected = 0;
     let mut removed = 0;
+    // the position the calls describe: each setter is independent of the others and of their
+    // order; a placement on an occupied square is refused and changes nothing
+    let mut want = Pos::empty();
     let _ = b.place(sq(c.wk % 64), bb::Color::White, bb::Piece::King);
+    want.sq[(c.wk % 64) as usize] = Some((C::White, P::King));
     if b.place(sq(c.bk % 64), bb::Color::Black, bb::Piece::King).is_err() {
         rejected += 1;
+    } else {
+        want.sq[(c.bk % 64) as usize] = Some((C::Black, P::King));
     }
     for op in &c.ops {
         match op {
             BOp::Place(code, s) => {
                 let col = if code & 1 == 0 { bb::Color::White } else { bb::Color::Black };
                 let p = [bb::Piece::Pawn, bb::Piece::Pawn, bb::Piece::Knight, bb::Piece::Bishop, bb::Piece::Rook, bb::Piece::Queen][((code >> 1) % 6) as usize];
-                if b.place(sq(*s % 64), col, p).is_err() {
+                let refused = b.place(sq(*s % 64), col, p).is_err();
+                let occupied = want.sq[(*s % 64) as usize].is_some();
+                if refused != occupied {
+                    return Err(format!("C05 builder place on {} {} although the square was {}", refchess::sq_name(*s % 64), if refused { "was refused" } else { "succeeded" }, if occupied { "occupied" } else { "empty" }));
+                }
+                if refused {
                     rejected += 1;
+                } else {
+                    want.sq[(*s % 64) as usize] = Some((color_from_bb(col), piece_from_bb(p)));
                 }
             }
             BOp::Remove(s) => {
                 b.remove(sq(*s % 64));
+                want.sq[(*s % 64) as usize] = None;
                 removed += 1;
             }
             BOp::Turn(x) => {
                 b.turn(if *x { bb::Color::Black } else { bb::Color::White });
+                want.turn = if *x { C::Black } else { C::White };
             }
             BOp::Ep(f) => {
                 b.enpassant(f.map(|f| bb::File::from_u8(f % 8).unwrap()));
+                want.ep = f.map(|f| f % 8);
             }
             BOp::Half(x) => {
                 b.half_move_clock(*x);
+                want.half = *x as u32;
             }
             BOp::Full(x) => {
                 b.full_move_clock(*x);
+                want.full = *x as u32;
             }
         }
     }
@@ -261,6 +279,9 @@ pub fn builder_case(c: &BuilderCase, st: &mut Stats) -> Result<(), String> {
     };
     let p = read_back(&board).map_err(|e| format!("C05 builder board: {e}"))?;
     let text = p.fen();
+    if text != want.fen() {
+        return Err(format!("C05 the builder calls describe `{}` but build() returned `{text}` (history: {:?})", want.fen(), c.ops));
+    }
     if board.to_string() != text {
         return Err(format!("C05 builder board prints `{board}` but its squares/fields read back as `{text}`"));
     }
